@@ -178,6 +178,9 @@ func (s *Server) Run(addr string, opt ...Option) error {
 		connID++
 		select {
 		case <-s.shutdownCtx.Done():
+			// the server may have been stopped before it started listening,
+			// so make sure the listener isn't left open
+			_ = s.listener.Close()
 			return nil
 		default:
 			// need a default to fall through to rest of loop...
